@@ -410,38 +410,54 @@ theorem C10_new_header_order (c : HdrCfg) {i j : Extracted} (hc : i.cpr.Perm j.c
     (hl : i.lic.Perm j.lic) : createNewHeader c i = createNewHeader c j :=
   createNewHeader_perm c hc hn hl
 
-/-- **`create_header` does not depend on the order of the requested sets** (without `--merge-copyrights`).  For
-    every configuration, every existing header text (also none): requests that are permutations of each other
-    give the same result. -/
-theorem C10_header_order (c : HdrCfg) (hm : c.merge = false) {i j : Extracted} (header : Text)
+/-- **`merge_copyright_lines` does not depend on the order of the set.**  It iterates over `sorted(...)`
+    (fixes/c10-merge-order.diff), so permutations of one list — two iteration orders of one set — merge to the
+    same list, ties or not. -/
+theorem C10_merge_order {l₁ l₂ : List Text} (h : l₁.Perm l₂) : mergeLines l₁ = mergeLines l₂ :=
+  mergeLines_perm_eq h
+
+/-- the same as `C10_merge_order`, spelled with the sort (how the repair was proposed) -/
+theorem C10_merge_sorted_order {l₁ l₂ : List Text} (h : l₁.Perm l₂) :
+    mergeLinesWith Generated.endRe (sortTexts l₁) = mergeLinesWith Generated.endRe (sortTexts l₂) :=
+  mergeLines_perm_eq h
+
+/-- **`create_header` does not depend on the order of the requested sets**, with and without
+    `--merge-copyrights`.  For every configuration, every existing header text (also none): requests that are
+    permutations of each other give the same result. -/
+theorem C10_header_order (c : HdrCfg) {i j : Extracted} (header : Text)
     (hc : i.cpr.Perm j.cpr) (hn : i.con.Perm j.con) (hl : i.lic.Perm j.lic) :
     createHeader c i header = createHeader c j header :=
-  createHeader_order c header ⟨hc, hn, hl⟩ (.of_no_merge hm _ _)
+  createHeader_order c header ⟨hc, hn, hl⟩
 
 /-- … in the form "the same sets": duplicate-free lists with the same members. -/
-theorem C10_header_order_sets (c : HdrCfg) (hm : c.merge = false) {i j : Extracted} (header : Text)
+theorem C10_header_order_sets (c : HdrCfg) {i j : Extracted} (header : Text)
     (hc : ∀ x, x ∈ i.cpr ↔ x ∈ j.cpr) (hn : ∀ x, x ∈ i.con ↔ x ∈ j.con) (hl : ∀ x, x ∈ i.lic ↔ x ∈ j.lic)
     (di : i.cpr.Nodup ∧ i.con.Nodup ∧ i.lic.Nodup) (dj : j.cpr.Nodup ∧ j.con.Nodup ∧ j.lic.Nodup) :
     createHeader c i header = createHeader c j header :=
-  createHeader_order c header (.of_sameMembers hc hn hl di dj) (.of_no_merge hm _ _)
+  createHeader_order c header (.of_sameMembers hc hn hl di dj)
 
 /-- … and when a header exists the requests need not even be duplicate-free: `create_header` forms unions with
     what the header declares, so only the members count. -/
-theorem C10_header_order_old_sets (c : HdrCfg) (hm : c.merge = false) {i j : Extracted} {header : Text}
+theorem C10_header_order_old_sets (c : HdrCfg) {i j : Extracted} {header : Text}
     (hne : header ≠ [])
     (hc : ∀ x, x ∈ i.cpr ↔ x ∈ j.cpr) (hn : ∀ x, x ∈ i.con ↔ x ∈ j.con) (hl : ∀ x, x ∈ i.lic ↔ x ∈ j.lic) :
     createHeader c i header = createHeader c j header :=
-  createHeader_sameMembers_old c (by cases header <;> simp_all) hc hn hl (fun h => by rw [hm] at h; cases h)
+  createHeader_sameMembers_old c (by cases header <;> simp_all) hc hn hl
 
-/-- **`merge_copyright_lines` on two orders of one set (partial: no ties).**  The merged lines are the same up
-    to order when, for every holder of the input, (i) all most frequent prefixes of the holder's lines lead to the
-    same prefix text (`TieFree`: e.g. the holder's lines carry one prefix, or one prefix is strictly most
-    frequent) and (ii) no two different year texts stated for the holder have the same numeric value
-    (`YearsInj`: e.g. all years are four ASCII digits) — `MergeStable`, a property of the set, decidable.
-    Full statement (FALSE in the model and in the code, see `C10_merge_prefix_tie`): without `hs`. -/
-theorem C10_merge_order_partial {l₁ l₂ : List Text} (h : l₁.Perm l₂)
-    (hs : MergeStable (parseLines Generated.endRe l₁)) : (mergeLines l₁).Perm (mergeLines l₂) :=
-  mergeLines_perm h hs
+/-! #### why the sort is needed: the loop of `merge_copyright_lines` on an unsorted input
+
+`mergeLinesWith` is the loop on the lines in the order in which they are met — until the repair, the iteration
+order of the set. -/
+
+/-- **The loop on two orders of one set (partial: no ties).**  The merged lines are the same up to order when,
+    for every holder of the input, (i) all most frequent prefixes of the holder's lines lead to the same prefix text
+    (`TieFree`: e.g. the holder's lines carry one prefix, or one prefix is strictly most frequent) and (ii) no two
+    different year texts stated for the holder have the same numeric value (`YearsInj`: e.g. all years are four
+    ASCII digits) — `MergeStable`, a property of the set, decidable.
+    Full statement (FALSE in the model, and in the code before the repair, see `C10_merge_prefix_tie`): without `hs`. -/
+theorem C10_merge_order_partial (endRe : Re) {l₁ l₂ : List Text} (h : l₁.Perm l₂)
+    (hs : MergeStable (parseLines endRe l₁)) : (mergeLinesWith endRe l₁).Perm (mergeLinesWith endRe l₂) :=
+  mergeLinesWith_perm endRe h hs
 
 /-- the sufficient conditions named above -/
 theorem C10_merge_stable_of {parsed : List Parsed}
@@ -457,7 +473,7 @@ theorem C10_merge_stable_of {parsed : List Parsed}
 /-- **The negation witness: a prefix tie.**  One holder, one year, the prefixes `Copyright` and `©` once each:
     the merged line carries the prefix of the line met first.  At the level of the parsed lines (closed terms), and
     at the level of the lines for every END pattern for which `X` is a well-formed holder (`Notice.ok`, as in
-    `C20_merge_lines`).  Replayed against the code: `findings/C10-merge-order.json`. -/
+    `C20_merge_lines`).  Replayed against the code before the repair: `findings/C10-merge-order.json`. -/
 theorem C10_merge_prefix_tie :
     [tieWord, tieSign].Perm [tieSign, tieWord] ∧
     mergeParsed [tieWord, tieSign] = ["Copyright 2019 X".toList] ∧
@@ -498,45 +514,41 @@ theorem C10_merge_year_tie :
     mergeParsed [yearWide, yearAscii] = ["© ２０１９ X".toList] ∧
     ¬ MergeStable [yearAscii, yearWide] := year_tie_witness
 
-/-- **The proposed repair** (`fixes/c10-merge-order.diff`, not applied: `for line in sorted(copyright_lines)`).
-    Merging the *sorted* lines is a function of the set, ties or not — by `C10_sorted_order`. -/
-theorem C10_merge_sorted_order {l₁ l₂ : List Text} (h : l₁.Perm l₂) :
-    mergeLines (sortTexts l₁) = mergeLines (sortTexts l₂) := by
-  rw [C10_sorted_order h]
+/-- with the sort both orders of the tie give the line of the prefix that sorts first (`C` before `©`) -/
+example : sortTexts ["© 2019 X".toList, "Copyright 2019 X".toList] = ["Copyright 2019 X".toList, "© 2019 X".toList] ∧
+    sortTexts ["Copyright 2019 X".toList, "© 2019 X".toList] = ["Copyright 2019 X".toList, "© 2019 X".toList] := by decide
 
-/-- **`create_header` with `--merge-copyrights` (partial: no ties).**  As `C10_header_order`, for every
-    configuration; with `c.merge = true` under the hypothesis that the lines the merge step receives — the request
-    when there is no header, else the union of the request and what the header declares (`cprInput`) — are
-    `MergeStable`.  Full statement (false: `C10_merge_prefix_tie`): without `hstable`. -/
+/-- kept from before the repair (`mergeLines` then was the loop on the unsorted input, and `hstable` — no ties
+    among the lines the merge step receives — was needed); superseded by `C10_header_order` -/
 theorem C10_header_order_merge_partial (c : HdrCfg) {i j : Extracted} (header : Text)
     (hc : i.cpr.Perm j.cpr) (hn : i.con.Perm j.con) (hl : i.lic.Perm j.lic)
-    (hstable : c.merge = true → MergeStable (parseLines Generated.endRe (cprInput i header))) :
+    (_hstable : c.merge = true → MergeStable (parseLines Generated.endRe (cprInput i header))) :
     createHeader c i header = createHeader c j header :=
-  createHeader_order c header ⟨hc, hn, hl⟩ hstable
+  C10_header_order c header hc hn hl
 
-/-- **What `add_header_to_file` writes does not depend on the order of the requested sets** (without
-    `--merge-copyrights`).  For every configuration, with and without `--no-replace` / `--skip-existing`, every
-    file text (any line ending, with or without byte order mark): requests that are permutations of each other
-    give the same outcome — the same text written, or skipped, or the same failure. -/
-theorem C10_annotate_order (c : HdrCfg) (hm : c.merge = false) (replace skip : Bool) {i j : Extracted} (text : Text)
+/-! #### text and file level -/
+
+/-- **What `add_header_to_file` writes does not depend on the order of the requested sets.**  For every
+    configuration (with and without `--merge-copyrights`, `--no-replace`, `--skip-existing`), every file text (any
+    line ending, with or without byte order mark): requests that are permutations of each other give the same
+    outcome — the same text written, or skipped, or the same failure. -/
+theorem C10_annotate_order (c : HdrCfg) (replace skip : Bool) {i j : Extracted} (text : Text)
     (hc : i.cpr.Perm j.cpr) (hn : i.con.Perm j.con) (hl : i.lic.Perm j.lic) :
     annotateFile c replace skip i text = annotateFile c replace skip j text ∧
     annotateText c replace skip i text = annotateText c replace skip j text :=
-  ⟨annotateFile_order c replace skip text ⟨hc, hn, hl⟩ (.of_no_merge hm _ _),
-   annotateText_order c replace skip text ⟨hc, hn, hl⟩ (.of_no_merge hm _ _)⟩
+  ⟨annotateFile_order c replace skip text ⟨hc, hn, hl⟩, annotateText_order c replace skip text ⟨hc, hn, hl⟩⟩
 
-/-- … with `--merge-copyrights` (partial: no ties among the lines the merge step receives; `headerSeen` is the
-    header block the locator finds in the file, `afterBom` the text after a leading byte order mark). -/
+/-- kept from before the repair; superseded by `C10_annotate_order` -/
 theorem C10_annotate_order_merge_partial (c : HdrCfg) (replace skip : Bool) {i j : Extracted} (text : Text)
     (hc : i.cpr.Perm j.cpr) (hn : i.con.Perm j.con) (hl : i.lic.Perm j.lic)
-    (hstable : c.merge = true →
+    (_hstable : c.merge = true →
       MergeStable (parseLines Generated.endRe (cprInput i (headerSeen c replace (afterBom text))))) :
     annotateFile c replace skip i text = annotateFile c replace skip j text :=
-  annotateFile_order c replace skip text ⟨hc, hn, hl⟩ hstable
+  (C10_annotate_order c replace skip text hc hn hl).1
 
 /-- **Idempotence across processes.**  Under the hypotheses of `C10_idem_partial2` as they are (stated for one
-    list order `info` of the requested sets), without `--merge-copyrights`: every sequence of one or more runs,
-    *each handing `create_header` its own order of the same sets* (`j`, then `js`), gives what one run with
+    list order `info` of the requested sets; with or without `--merge-copyrights`): every sequence of one or more
+    runs, *each handing `create_header` its own order of the same sets* (`j`, then `js`), gives what one run with
     `info` gives.  In particular a second run in a process with another hash seed changes nothing. -/
 theorem C10_idem_any_order {c : HdrCfg} {info : Extracted} {t a hdr b : Text} (hs : c.style ∈ Generated.styles)
     (he : c.style.isEmptyStyle = false) (hcom : c.commented = false)
@@ -546,15 +558,15 @@ theorem C10_idem_any_order {c : HdrCfg} {info : Extracted} {t a hdr b : Text} (h
     (hinfo : containsReuseInfo c.parses hdr = true)
     (habove : nothingAbove c a (hdr ++ '\n' :: b) = true)
     (hrepro : createHeader c info (hdr ++ ['\n']) = .ok hdr)
-    (hm : c.merge = false) (j : Extracted) (js : List Extracted)
+    (j : Extracted) (js : List Extracted)
     (hj : PermInfo info j) (hjs : ∀ k ∈ js, PermInfo info k) :
     runsSeq c (j :: js) t = .ok (a ++ hdr ++ ['\n'] ++ b) :=
   runsSeq_fix c (C10_first_run h1)
     (C10_second_run_partial h1 (C10_second_run_ok hs he hcom h1 hno hb htex hinfo habove hrepro))
-    (.of_no_merge hm _ _) (.of_no_merge hm _ _) j js hj hjs
+    j js hj hjs
 
-/-- … with `--merge-copyrights` (partial): the same, when the lines the merge step receives in the first run
-    (header met in `t`) and in every later run (header met in the written text) have no ties. -/
+/-- kept from before the repair (`hst1`, `hst2`: no ties among the lines the merge step receives in the first and
+    in the later runs); superseded by `C10_idem_any_order` -/
 theorem C10_idem_any_order_merge_partial {c : HdrCfg} {info : Extracted} {t a hdr b : Text}
     (hs : c.style ∈ Generated.styles)
     (he : c.style.isEmptyStyle = false) (hcom : c.commented = false)
@@ -564,22 +576,20 @@ theorem C10_idem_any_order_merge_partial {c : HdrCfg} {info : Extracted} {t a hd
     (hinfo : containsReuseInfo c.parses hdr = true)
     (habove : nothingAbove c a (hdr ++ '\n' :: b) = true)
     (hrepro : createHeader c info (hdr ++ ['\n']) = .ok hdr)
-    (hst1 : c.merge = true → MergeStable (parseLines Generated.endRe (cprInput info (replaceSections c t).2.1)))
-    (hst2 : c.merge = true → MergeStable (parseLines Generated.endRe
+    (_hst1 : c.merge = true → MergeStable (parseLines Generated.endRe (cprInput info (replaceSections c t).2.1)))
+    (_hst2 : c.merge = true → MergeStable (parseLines Generated.endRe
       (cprInput info (replaceSections c (a ++ hdr ++ ['\n'] ++ b)).2.1)))
     (j : Extracted) (js : List Extracted) (hj : PermInfo info j) (hjs : ∀ k ∈ js, PermInfo info k) :
     runsSeq c (j :: js) t = .ok (a ++ hdr ++ ['\n'] ++ b) :=
-  runsSeq_fix c (C10_first_run h1)
-    (C10_second_run_partial h1 (C10_second_run_ok hs he hcom h1 hno hb htex hinfo habove hrepro))
-    hst1 hst2 j js hj hjs
+  C10_idem_any_order hs he hcom h1 hno hb htex hinfo habove hrepro j js hj hjs
 
 /-- `runsSeq` with one order throughout is `runs` -/
 theorem C10_runs_seq_same (c : HdrCfg) (i : Extracted) (n : Nat) (t : Text) :
     runsSeq c (List.replicate n i) t = runs c i n t := runsSeq_replicate c i n t
 
 /-- **Idempotence across processes at the level of the file** (`add_header_to_file`; hypotheses of
-    `C10_idem_text_partial2` as they are, no `--merge-copyrights`): the first run with order `j` and the second
-    run with order `k` of the same sets write the same characters, for the LF file and for its CRLF form. -/
+    `C10_idem_text_partial2` as they are): the first run with order `j` and the second run with order `k` of the
+    same sets write the same characters, for the LF file and for its CRLF form. -/
 theorem C10_idem_text_any_order {c : HdrCfg} {info : Extracted} {t a hdr b : Text} (hs : c.style ∈ Generated.styles)
     (he : c.style.isEmptyStyle = false) (hcom : c.commented = false)
     (h1 : firstRunParts c info t = some (a, hdr, b)) (hno : NoExoticBreaks hdr)
@@ -589,7 +599,7 @@ theorem C10_idem_text_any_order {c : HdrCfg} {info : Extracted} {t a hdr b : Tex
     (habove : nothingAbove c a (hdr ++ '\n' :: b) = true)
     (hrepro : createHeader c info (hdr ++ ['\n']) = .ok hdr)
     (hcr : NoCR t) (hcr' : NoCR (a ++ hdr ++ ['\n'] ++ b))
-    (hm : c.merge = false) {j k : Extracted} (hj : PermInfo info j) (hk : PermInfo info k) :
+    {j k : Extracted} (hj : PermInfo info j) (hk : PermInfo info k) :
     (annotateText c true false j t = .written (a ++ hdr ++ ['\n'] ++ b) ∧
      annotateText c true false k (a ++ hdr ++ ['\n'] ++ b) = .written (a ++ hdr ++ ['\n'] ++ b)) ∧
     ('\n' ∈ t →
@@ -597,9 +607,9 @@ theorem C10_idem_text_any_order {c : HdrCfg} {info : Extracted} {t a hdr b : Tex
       annotateText c true false k (toCRLF (a ++ hdr ++ ['\n'] ++ b)) = .written (toCRLF (a ++ hdr ++ ['\n'] ++ b))) := by
   have base := C10_idem_text_partial2 hs he hcom h1 hno hb htex hinfo habove hrepro hcr hcr'
   have ej : ∀ u, annotateText c true false j u = annotateText c true false info u := fun u =>
-    (annotateText_order c true false u hj (.of_no_merge hm _ _)).symm
+    (annotateText_order c true false u hj).symm
   have ek : ∀ u, annotateText c true false k u = annotateText c true false info u := fun u =>
-    (annotateText_order c true false u hk (.of_no_merge hm _ _)).symm
+    (annotateText_order c true false u hk).symm
   simp only [ej, ek]
   exact base
 
